@@ -198,6 +198,9 @@ pub enum Damage {
     TruncFraming(usize),
     /// one bit of the 8-byte gzip trailer is flipped
     TrailerFlip(usize),
+    /// the frame ends after `at` bytes of the compressed stream (framing and data agree) and the rest
+    /// of the stream follows the frame on the connection: nothing beyond the frame is the body's
+    TruncWithTail(usize),
     /// the compressed stream is all there, the HTTP framing around it is not: a chunked body without
     /// its final chunk, a Content-Length that announces five more bytes than arrive
     FramingOnly,
@@ -281,7 +284,12 @@ fn chunk_plan(n: usize) -> Vec<usize> {
             left -= c;
         }
     }
-    if n > 100_000 {
+    if n > 65536 + 20 {
+        // an exact 64 KiB chunk with more coded data after it
+        if left > 65536 + 10 {
+            v.push(65536);
+            left -= 65536;
+        }
         if left > 65537 {
             v.push(65537);
             left -= 65537;
@@ -301,6 +309,7 @@ fn build_wire(c: &Case, s: &Stream) -> (Vec<u8>, Vec<u8>, bool) {
     let mut data = s.data.to_vec();
     let mut framing_len = data.len();
     let mut damaged = false;
+    let mut tail: Vec<u8> = Vec::new();
     match c.damage {
         Damage::None => {}
         Damage::TruncConsistent(at) => {
@@ -319,6 +328,12 @@ fn build_wire(c: &Case, s: &Stream) -> (Vec<u8>, Vec<u8>, bool) {
         }
         Damage::FramingOnly => {
             framing_len = data.len() + 5;
+            damaged = true;
+        }
+        Damage::TruncWithTail(at) => {
+            tail = data[at..].to_vec();
+            data.truncate(at);
+            framing_len = at;
             damaged = true;
         }
     }
@@ -347,6 +362,10 @@ fn build_wire(c: &Case, s: &Stream) -> (Vec<u8>, Vec<u8>, bool) {
     if c.other != 0 {
         head.extend_from_slice(OTHER_FIELDS[c.other as usize].as_bytes());
         head.extend_from_slice(b"\r\n");
+    }
+    if matches!(c.status, 301 | 302 | 303 | 307 | 308) {
+        // sent with follow_redirects(false): the 3xx comes back, its body decoded like any other
+        head.extend_from_slice(b"Location: /elsewhere\r\n");
     }
     for (k, v) in fields {
         // '|' in a spelling: the list is spread over several field lines
@@ -379,6 +398,7 @@ fn build_wire(c: &Case, s: &Stream) -> (Vec<u8>, Vec<u8>, bool) {
             }
         }
     }
+    wire.extend_from_slice(&tail);
     (wire, data, damaged)
 }
 
@@ -398,6 +418,7 @@ fn run(c: &Case, s: &Stream) -> (Obs, Vec<u8>, bool) {
     let read = c.read;
     let head_request = c.head_request;
     let no_announce = c.no_announce;
+    let no_follow = matches!(c.status, 301 | 302 | 303 | 307 | 308);
     let r = guarded(move || {
         let rb = if no_announce == 2 {
             let mut s = attohttpc::Session::new();
@@ -409,6 +430,7 @@ fn run(c: &Case, s: &Stream) -> (Obs, Vec<u8>, bool) {
             attohttpc::get("http://h.test/z")
         };
         let rb = if no_announce == 1 { rb.allow_compression(false) } else { rb };
+        let rb = if no_follow { rb.follow_redirects(false) } else { rb };
         let mut resp = match rb.send() {
             Ok(r) => r,
             Err(e) => return Obs::SendErr(e.to_string()),
@@ -606,6 +628,9 @@ fn cases_for(s: &Stream, tier: Tier) -> Vec<Case> {
                     v.push(mk(framing, 0, p.clone(), r, Damage::TruncConsistent(at)));
                     if framing != Framing::Close {
                         v.push(mk(framing, 0, p.clone(), r, Damage::TruncFraming(at)));
+                        if at > 0 {
+                            v.push(mk(framing, 0, p.clone(), r, Damage::TruncWithTail(at)));
+                        }
                     }
                 }
             }
@@ -622,7 +647,7 @@ fn cases_for(s: &Stream, tier: Tier) -> Vec<Case> {
     }
     // every status that carries a body: the coding is decoded, damage is reported
     if s.name.contains(".l6.") || s.name.contains(".fixed.") {
-        for status in [201u16, 203, 206, 226, 300, 400, 404, 416, 500, 503] {
+        for status in [201u16, 203, 206, 226, 300, 301, 302, 303, 307, 308, 400, 404, 416, 500, 503] {
             for framing in [Framing::Length, Framing::Chunked, Framing::Close] {
                 let mut c = mk(framing, 0, Policy::default(), ReadMode::Bytes, Damage::None);
                 c.status = status;
